@@ -32,12 +32,14 @@ package c10
 
 import (
 	"bytes"
+	"crypto/ed25519"
 	"encoding/binary"
 	"encoding/hex"
 	"fmt"
 	"math/big"
 	"strconv"
 	"strings"
+	"time"
 
 	"github.com/tink-crypto/tink-go/v2/insecuresecretdataaccess"
 	imldsa "github.com/tink-crypto/tink-go/v2/internal/signature/mldsa"
@@ -101,7 +103,7 @@ func mkset(name string) *pset {
 
 var sets = map[string]*pset{}
 
-func set(name string) *pset {
+func setOf(name string) *pset {
 	if p, ok := sets[name]; ok {
 		return p
 	}
@@ -167,6 +169,38 @@ func atoi(s string) int {
 		panic("bad number " + s)
 	}
 	return int(v)
+}
+
+// signTimeout bounds every signing call of the harness: a defect in the
+// arithmetic can make the rejection loop of signInternalWithMu spin forever.
+const signTimeout = 30 * time.Second
+
+// watchdog runs f and reports whether it returned in time (the goroutine is
+// abandoned otherwise; the process exits at the end of the run).
+func watchdog(f func()) bool {
+	done := make(chan struct{})
+	go func() {
+		defer func() {
+			recover()
+			close(done)
+		}()
+		f()
+	}()
+	select {
+	case <-done:
+		return true
+	case <-time.After(signTimeout):
+		return false
+	}
+}
+
+// signDet is SignDeterministic under the watchdog; nil = did not return.
+func signDet(sk *imldsa.SecretKey, msg, ctx []byte) []byte {
+	var sig []byte
+	if !watchdog(func() { sig, _ = sk.SignDeterministic(msg, ctx) }) {
+		return nil
+	}
+	return sig
 }
 
 func formatMsg(msg, ctx []byte) []byte {
@@ -332,9 +366,9 @@ func run(in string) string {
 	case "bu":
 		return unpackGuard(func() [256]uint32 { return imldsa.VerifBitUnpack(hx.UH(f[4]), uint32(atoi(f[2])), atoi(f[3])) })
 	case "hbp":
-		return hx.H(set(f[2]).hintPack(hexMasks(f[3])))
+		return hx.H(setOf(f[2]).hintPack(hexMasks(f[3])))
 	case "hbu":
-		p := set(f[2])
+		p := setOf(f[2])
 		enc := hx.UH(f[3])
 		if len(enc) != p.omega+p.k {
 			return "PANIC" // the model's convention for an encoding of the wrong size (Go: index panic or ignored tail)
@@ -345,7 +379,7 @@ func run(in string) string {
 		}
 		return masksHex(h)
 	case "chb":
-		c, ok := set(f[2]).coeffFromHalfByte(byte(atoi(f[3])))
+		c, ok := setOf(f[2]).coeffFromHalfByte(byte(atoi(f[3])))
 		if !ok {
 			return "rej"
 		}
@@ -357,17 +391,24 @@ func run(in string) string {
 	case "rbp":
 		var rho [66]byte
 		copy(rho[:], hx.UH(f[3]))
-		return polyHex(set(f[2]).rejectBounded(rho))
+		return polyHex(setOf(f[2]).rejectBounded(rho))
 	case "sib":
-		return polyHex(set(f[2]).sampleInBall(hx.UH(f[3])))
+		return polyHex(setOf(f[2]).sampleInBall(hx.UH(f[3])))
 	case "par":
-		p := set(f[2])
+		p := setOf(f[2])
 		return fmt.Sprintf("%d,%d,%d,%d,%d,%d,%d,%d,%d,%d,%d,%d,%d", p.tau, p.lambda, p.lg1, p.gamma2, p.k, p.l, p.eta, p.omega, p.etaBits, p.w1Bits, p.pkLen, p.skLen, p.sigLen)
+	case "hang":
+		// C10|hang|set|seed|msg|tag: does SignDeterministic return at all?
+		_, sk := setOf(f[2]).keygen(seed32(f[3]))
+		if signDet(sk, hx.UH(f[4]), nil) == nil {
+			return "HANG"
+		}
+		return "returns"
 	case "kg":
-		pk, sk := set(f[2]).keygen(seed32(f[3]))
+		pk, sk := setOf(f[2]).keygen(seed32(f[3]))
 		return hx.H(pk.Encode()) + "," + hx.H(sk.Encode())
 	case "sg":
-		p := set(f[2])
+		p := setOf(f[2])
 		_, sk := p.keygen(seed32(f[3]))
 		msg, ctx := hx.UH(f[4]), hx.UH(f[5])
 		if f[6] == "d" {
@@ -382,7 +423,7 @@ func run(in string) string {
 		}
 		return hx.H(imldsa.VerifSignInternal(sk, formatMsg(msg, ctx), seed32(f[6])))
 	case "vf":
-		pk, err := set(f[2]).decodePK(hx.UH(f[3]))
+		pk, err := setOf(f[2]).decodePK(hx.UH(f[3]))
 		if err != nil {
 			return "badkey"
 		}
@@ -391,15 +432,25 @@ func run(in string) string {
 		}
 		return "rej"
 	case "ts":
-		return tinkSign(set(f[2]), f[3], uint32(atoi(f[4])), hx.UH(f[5]), hx.UH(f[6]), hx.UH(f[7]))
+		return tinkSign(setOf(f[2]), f[3], uint32(atoi(f[4])), hx.UH(f[5]), hx.UH(f[6]), hx.UH(f[7]))
 	case "tv":
-		return tinkVerify(set(f[2]), f[3], uint32(atoi(f[4])), hx.UH(f[5]), hx.UH(f[6]), hx.UH(f[7]))
+		return tinkVerify(setOf(f[2]), f[3], uint32(atoi(f[4])), hx.UH(f[5]), hx.UH(f[6]), hx.UH(f[7]))
 	case "ph":
-		pre, sig, err := prehashSign(set(f[2]), uint32(atoi(f[3])), hx.UH(f[4]), hx.UH(f[5]), hx.UH(f[6]))
+		pre, sig, err := prehashSign(setOf(f[2]), uint32(atoi(f[3])), hx.UH(f[4]), hx.UH(f[5]), hx.UH(f[6]))
 		if err != nil {
 			return hx.H(pre) + ",err"
 		}
 		return hx.H(pre) + "," + hx.H(sig)
+	case "cs":
+		p := setOf(f[2])
+		sig, err := compSign(f[2], f[3], f[4], uint32(atoi(f[5])), hx.UH(f[6]), hx.UH(f[7]), hx.UH(f[8]), hx.UH(f[9]))
+		plen := len(compPrefix(f[4], uint32(atoi(f[5]))))
+		if err != nil || len(sig) < plen+p.sigLen {
+			return "err"
+		}
+		return hx.H(sig[plen : plen+p.sigLen])
+	case "cv":
+		return compVerify(f[2], f[3], f[4], uint32(atoi(f[5])), hx.UH(f[6]), hx.UH(f[7]), hx.UH(f[8]), hx.UH(f[9]))
 	}
 	panic("unknown case kind " + f[1])
 }
@@ -548,6 +599,26 @@ func check(in, obs string) string {
 		if want, ok := scalarSpec(f[2], a, b, g); ok && obs != want {
 			return fmt.Sprintf("%s(a=%d,b=%d,gamma2=%d) = %s, FIPS 204 gives %s", f[2], a, b, g, obs, want)
 		}
+	case "hang":
+		if obs != "returns" {
+			return fmt.Sprintf("SignDeterministic did not return within %v (rejection loop does not terminate)", signTimeout)
+		}
+	case "zt":
+		// zetas[k] = 1753^brv8(k) mod q (zetas[0] = 0), computed here from scratch
+		got := hexPoly(obs)
+		for k := 1; k < 256; k++ {
+			e := 0
+			for i := 0; i < 8; i++ {
+				e |= ((k >> i) & 1) << (7 - i)
+			}
+			z := new(big.Int).Exp(big.NewInt(1753), big.NewInt(int64(e)), big.NewInt(q)).Int64()
+			if int64(got[k]) != z {
+				return fmt.Sprintf("zetas[%d] = %d, 1753^brv8(%d) mod q = %d", k, got[k], k, z)
+			}
+		}
+		if got[0] != 0 {
+			return "zetas[0] != 0"
+		}
 	case "ntt":
 		// the inverse transform undoes the transform on canonical polynomials
 		p := hexPoly(f[2])
@@ -578,7 +649,7 @@ func check(in, obs string) string {
 			return "bitUnpack(bitPack(p)) != p"
 		}
 	case "hbp":
-		p := set(f[2])
+		p := setOf(f[2])
 		h := hexMasks(f[3])
 		back, err := p.hintUnpack(hx.UH(obs))
 		if err != nil {
@@ -588,7 +659,7 @@ func check(in, obs string) string {
 			return "hintBitUnpack(hintBitPack(h)) != h"
 		}
 	case "hbu":
-		p := set(f[2])
+		p := setOf(f[2])
 		if obs != "err" && obs != "PANIC" {
 			// strict encoding: whatever decodes must be the canonical encoding of what it decodes to
 			if !bytes.Equal(p.hintPack(hexMasks(obs)), hx.UH(f[3])) {
@@ -602,7 +673,7 @@ func check(in, obs string) string {
 			return "well-formed hint encoding rejected"
 		}
 	case "kg":
-		p := set(f[2])
+		p := setOf(f[2])
 		parts := strings.Split(obs, ",")
 		if len(parts) != 2 {
 			return "keygen failed"
@@ -620,7 +691,7 @@ func check(in, obs string) string {
 			return "secret key does not survive decode/encode"
 		}
 	case "sg":
-		p := set(f[2])
+		p := setOf(f[2])
 		ctx := hx.UH(f[5])
 		if len(ctx) > 255 {
 			if obs != "err" {
@@ -651,7 +722,7 @@ func check(in, obs string) string {
 			return "invalid signature accepted (" + tag + ")"
 		}
 	case "ts":
-		p := set(f[2])
+		p := setOf(f[2])
 		if obs == "err" {
 			return "Tink signer failed"
 		}
@@ -672,9 +743,42 @@ func check(in, obs string) string {
 		if pk.Verify(hx.UH(f[6]), sig[plen:], nil) != nil {
 			return "signature of the Tink signer does not verify with the internal API"
 		}
+	case "cs":
+		// the composite signature verifies as a whole, carries the prefix, and each component verifies on its own
+		p := setOf(f[2])
+		id := uint32(atoi(f[5]))
+		sig, err := compSign(f[2], f[3], f[4], id, hx.UH(f[6]), hx.UH(f[7]), hx.UH(f[8]), hx.UH(f[9]))
+		if err != nil {
+			return "composite signer failed"
+		}
+		pk, _ := p.keygen(seed32(f[6]))
+		clpk := []byte(ed25519.NewKeyFromSeed(hx.UH(f[7])).Public().(ed25519.PublicKey))
+		if compVerify(f[2], f[3], f[4], id, pk.Encode(), clpk, hx.UH(f[8]), sig) != "ok" {
+			return "composite signature rejected by the composite verifier"
+		}
+		pre, m, c := componentsVerify(f[2], f[3], f[4], id, pk.Encode(), clpk, hx.UH(f[8]), sig)
+		if !pre || !m || !c {
+			return fmt.Sprintf("composite signature components: prefix=%v mldsa=%v classical=%v", pre, m, c)
+		}
+	case "cv":
+		// composite verifies iff the prefix matches and both components do
+		pre, m, c := componentsVerify(f[2], f[3], f[4], uint32(atoi(f[5])), hx.UH(f[6]), hx.UH(f[7]), hx.UH(f[8]), hx.UH(f[9]))
+		want := "rej"
+		if pre && m && c {
+			want = "ok"
+		}
+		if obs != want {
+			return fmt.Sprintf("composite verifier says %s, components say prefix=%v mldsa=%v classical=%v", obs, pre, m, c)
+		}
+		if strings.HasPrefix(tag, "+") && obs != "ok" {
+			return "valid composite signature rejected"
+		}
+		if strings.HasPrefix(tag, "-") && obs == "ok" {
+			return "invalid composite signature accepted (" + tag + ")"
+		}
 	case "ph":
 		// prehash (external mu) signatures verify under the key's ordinary verifier
-		p := set(f[2])
+		p := setOf(f[2])
 		parts := strings.Split(obs, ",")
 		if len(parts) != 2 || parts[1] == "err" {
 			return "prehash signing failed"
@@ -701,7 +805,7 @@ func class(in, obs string) string {
 	switch f[1] {
 	case "sc":
 		return "sc:" + f[2] + ":" + tag
-	case "zt", "par":
+	case "zt", "par", "hang":
 		return f[1]
 	case "ntt", "intt", "rnp":
 		return f[1] + ":" + tag
@@ -715,6 +819,8 @@ func class(in, obs string) string {
 		return f[1] + ":" + f[2] + ":" + f[3] + ":" + tag + ":" + short
 	case "ph":
 		return f[1] + ":" + f[2] + ":" + tag
+	case "cs", "cv":
+		return f[1] + ":" + f[2] + ":" + f[3] + ":" + f[4] + ":" + tag + ":" + short
 	}
 	return f[1]
 }
